@@ -539,11 +539,19 @@ class Gen(object):
     def svar(self):
         return self.rng.choice(STR_VARS)
 
-    def expr(self):
+    def expr(self, code_ok=True):
+        r = self.rng
+        if code_ok and r.random() < 0.2:
+            # gettext calls in template code: extracted by extract_from_code, looked up through the
+            # functions the harness puts into the template data
+            if r.random() < 0.7:
+                return ['x', "_('%s')" % r.choice(WORDS[:14])]
+            return ['x', "ngettext('%s', '%s', %s)" % (r.choice(WORDS[:14]), r.choice(WORDS[:14]), r.choice(NUM_VARS))]
         return ['x', self.svar()]
 
-    def attrs(self, lang_ok=True, plain=False):
-        """`plain`: no attribute that the configuration translates"""
+    def attrs(self, lang_ok=True, plain=False, code_ok=True):
+        """`plain`: no attribute that the configuration translates; `code_ok`: gettext calls may
+        occur in interpolated values (not on excluded elements: finding C19-excluded-attr-code)"""
         r = self.rng
         out = []
         names = set()
@@ -563,12 +571,14 @@ class Gen(object):
             elif q < 0.8:
                 parts = [['t', r.choice(['', ' ', '  '])]]
             elif q < 0.9:
-                parts = [['t', self.words() + ' '], ['x', self.svar()]]
+                parts = [['t', self.words() + ' '], self.expr(code_ok)]
             else:
-                parts = [['x', self.svar()]]
+                parts = [self.expr(code_ok)]
             out.append([name, parts])
         if lang_ok and r.random() < 0.08:
             out.append(['xml:lang', [['t', 'en']] if r.random() < 0.7 else [['x', self.svar()]]])
+        elif r.random() < 0.03:
+            out.append(['lang', [['t', 'en']]])          # not xml:lang: must not exclude anything
         # a marker that no configuration translates: identifies the element in the output
         self.uid += 1
         out.append(['data-u', [['t', 'u%d' % self.uid]]])
@@ -628,7 +638,7 @@ class Gen(object):
                 sub_plain = plain or bool(in_msg and dirs and self.nofrag)
                 kids = self.inline(depth - 1, in_msg, params, dirs_ok and not (in_msg and dirs), sub_alpha, maxparams,
                                    lvl + 1, sub_plain) if r.random() < 0.85 else []
-                out.append(['e', tag, self.attrs(lang_ok=not in_msg, plain=sub_plain), dirs, kids])
+                out.append(['e', tag, self.attrs(lang_ok=not in_msg, plain=sub_plain, code_ok=not sub_plain), dirs, kids])
                 prev = 'e'
         return out
 
@@ -697,11 +707,17 @@ class Gen(object):
             return ['e', ctag, self.attrs(lang_ok=False), [['i18n:choose', value]], kids]
         return ['d', 'i18n:choose', [['numeral', nv], ['params', pv]], kids]
 
+    @staticmethod
+    def nocode(attrs):
+        return [[n, [p if p[0] == 't' or '(' not in p[1] else ['x', 's1'] for p in parts]] for n, parts in attrs]
+
     def plain_elem(self, depth, excl):
-        attrs = self.attrs()
+        attrs = self.attrs(code_ok=not excl)
         tag = self.rng.choice(TAGS)
-        excl = excl or self.has_lang(attrs) or tag in self.config['ignore_tags']
-        return tag, attrs, excl
+        ex = excl or self.has_lang(attrs) or tag in self.config['ignore_tags']
+        if ex:
+            attrs = self.nocode(attrs)
+        return tag, attrs, ex
 
     def block(self, depth, excl):
         r = self.rng
@@ -735,8 +751,8 @@ class Gen(object):
             return ['e', tag, attrs, [['i18n:comment', self.words()]], self.blocks(depth - 1, ex)]
         if q < 0.73:
             tag = r.choice(IGNORED)
-            kids = [self.text()] if r.random() < 0.8 else [self.text(), ['e', 'b', self.attrs(), [], [self.text()]]]
-            return ['e', tag, self.attrs(), [], kids]
+            kids = [self.text()] if r.random() < 0.8 else [self.text(), ['e', 'b', self.attrs(code_ok=False), [], [self.text()]]]
+            return ['e', tag, self.attrs(code_ok=False), [], kids]
         if depth > 0:
             tag, attrs, ex = self.plain_elem(depth, excl)
             return ['e', tag, attrs, self.pydirs(), self.blocks(depth - 1, ex)]
